@@ -63,6 +63,52 @@ def fn_in_block(items, inblock=False):
     return False
 
 
+def alias_matrix():
+    """containers are shared by reference and operators build fresh ones: every way of obtaining an array / a map from
+    existing ones x every way of changing the result, then all originals are observed"""
+    from ..past import arr, map_, idx, asg
+    out = []
+    contents = {"empty": [], "one": [I(1)], "three": [I(3), I(1), I(2)]}
+    producers = {
+        "same": lambda: ident("a"),
+        "a+empty": lambda: bin_("+", ident("a"), arr()),
+        "empty+a": lambda: bin_("+", arr(), ident("a")),
+        "a+b": lambda: bin_("+", ident("a"), ident("b")),
+        "b+a": lambda: bin_("+", ident("b"), ident("a")),
+        "a+a": lambda: bin_("+", ident("a"), ident("a")),
+        "rest": lambda: call("rest", ident("a")),
+        "through-array": lambda: idx(arr(ident("a")), I(0)),
+        "through-map": lambda: idx(map_((I(1), ident("a"))), I(1)),
+        "through-call": lambda: call("id", ident("a")),
+        "through-if": lambda: if_(lit(vbool(True)), [expr(ident("a"))], [expr(ident("b"))]),
+    }
+    mutators = {
+        "push": lambda: [expr(call("push", ident("c"), I(9)))],
+        "set-index": lambda: [expr(asg(idx(ident("c"), I(0)), I(9)))],
+        "sort": lambda: [expr(call("sort", ident("c")))],
+        "pop": lambda: [expr(call("pop", ident("c")))],
+        "push-twice": lambda: [expr(call("push", ident("c"), I(8))), expr(call("push", ident("c"), I(7)))],
+    }
+    for cn, ca in contents.items():
+        for cbn, cb in (("empty", []), ("two", [I(5), I(4)])):
+            for pn, mk in producers.items():
+                for mn, mut in mutators.items():
+                    prog = [OBS_DECL, fndef("id", ["x"], [expr(ident("x"))]), let("a", arr(*ca)), let("b", arr(*cb)),
+                            let("c", mk())] + mut() + [obs(ident("a")), obs(ident("b")), obs(ident("c")),
+                                                       obs(bin_("==", ident("a"), ident("c")))]
+                    out.append(("alias array a=%s b=%s via=%s then=%s" % (cn, cbn, pn, mn), prog))
+    # maps: shared by reference through variables, containers and calls
+    for pn, mk in (("same", lambda: ident("m")), ("through-array", lambda: idx(arr(ident("m")), I(0))),
+                   ("through-call", lambda: call("id", ident("m")))):
+        for mn, mut in (("insert", lambda: [expr(call("insert", ident("c"), I(2), I(20)))]),
+                        ("set-index", lambda: [expr(asg(idx(ident("c"), I(1)), I(11)))])):
+            prog = [OBS_DECL, fndef("id", ["x"], [expr(ident("x"))]), let("m", map_((I(1), I(10)))), let("c", mk())] + mut() + \
+                   [obs(call("len", ident("m"))), obs(call("get", ident("m"), I(1))), obs(call("get", ident("m"), I(2))),
+                    obs(call("len", ident("c")))]
+            out.append(("alias map via=%s then=%s" % (pn, mn), prog))
+    return out
+
+
 def structured_sample(tier):
     """a strided sample of the deterministic families the neighbouring properties enumerate (scope skeletons as
     function bodies, loop nests, control transfers in operand positions): whole-program behaviour is this
@@ -89,6 +135,9 @@ def structured_sample(tier):
     for n, (tag, prog) in enumerate(c07.ctrl_programs()):
         if "ctrl=return" in tag and n % 2 == 0:
             out.append(("control-transfer-in-operand", prog))
+    for n, (tag, prog) in enumerate(alias_matrix()):
+        if tier != "quick" or n % 2 == 0 or "empty" in tag:
+            out.append(("alias-matrix", prog))
     return out
 
 
@@ -124,7 +173,7 @@ def run(rep, tier, seed):
     machine_level(rep, items, tier)
     for it, out, v in bad:
         delta = progs.outcome_delta(v["exp"], out)
-        if it["tag"].startswith("illformed") or it["tag"] in ("skeleton-in-function", "loop-nest", "control-transfer-in-operand"):
+        if it["tag"].startswith("illformed") or it["tag"] in ("skeleton-in-function", "loop-nest", "control-transfer-in-operand", "alias-matrix"):
             sig = "%s %s" % (it["tag"], delta)
         else:
             sig = "random-program %s" % delta
